@@ -497,3 +497,28 @@ example : components (Bin.ofInts 2 2 [1, 0, 0, 1]) true = 1 ∧
      show (Bin.ofInts 2 2 [1, 0, 0, 1]).get 1 1 = true by decide, ?_⟩⟩
   rw [adj8_iff]
   decide
+
+/-- **Images with the same 8-components get the same count from the oracle**: if `SameComps (bset a) (bset b)` (the
+pixel set of `b` lies in that of `a`, connectivity between pixels of `b` is the same in both, every pixel of `a` is
+connected to one of `b` — the relation the thinning theorems establish) then `components a true = components b true`.
+(Counting argument on the two systems of representatives of `C15_components_count_pixels`.) -/
+theorem C15_components_eq_of_sameComps (a b : Bin) (h : SameComps (bset a) (bset b)) :
+    components a true = components b true := by
+  obtain ⟨la, a1, a2, a3, a4⟩ := C15_components_count_pixels a
+  obtain ⟨lb, b1, b2, b3, b4⟩ := C15_components_count_pixels b
+  rw [← a2, ← b2]
+  exact sdr_length_eq h ⟨a1, fun s hs => (a3 s hs).2, a4⟩ ⟨b1, fun s hs => (b3 s hs).2, b4⟩
+
+/-- **`thin` keeps the number of 8-connected components as counted by the oracle** — the `nin = nout` comparison of the
+correspondence check, proved for the model and every image and every `max_iter`:
+`components (thinModel b maxIter) true = components b true`
+(from `C15_thin_preserves_components` and `C15_components_eq_of_sameComps`). -/
+theorem C15_thin_components_count (b : Bin) (maxIter : Int) :
+    components (thinModel b maxIter) true = components b true :=
+  (C15_components_eq_of_sameComps b (thinModel b maxIter) (C15_thin_preserves_components b maxIter)).symm
+
+/-- non-vacuity: a filled 3×3 square thins to fewer pixels and keeps its single component -/
+example : components (Bin.ofInts 3 3 [1, 1, 1, 1, 1, 1, 1, 1, 1]) true = 1 ∧
+    (thinModel (Bin.ofInts 3 3 [1, 1, 1, 1, 1, 1, 1, 1, 1])).count < 9 ∧
+    components (thinModel (Bin.ofInts 3 3 [1, 1, 1, 1, 1, 1, 1, 1, 1])) true = 1 := by
+  decide +kernel
